@@ -133,6 +133,14 @@ def judge(ctx, case, method, cv_costs, disps, tm, subpix, d_before, m_before, d_
                 if (ma & B3) and not (mb & B3) and move != 0:
                     ctx.violation("bit3-on-moved-pixel", f"pixel ({y},{x}) moved {move} and got bit 3", case, situation="non-sample", desc=desc)
                     viol += 1
+                # "left where it was, with bit 3 raised, exactly when [the disparity it received] sits on an end of the interval,
+                # a neighbouring cost is NaN or it is not an extremum": a received disparity strictly inside the interval that is not
+                # a sample sits on no end and has no neighbouring costs - left where it was, it must not be flagged as stopped
+                if (ma & B3) and not (mb & B3) and move == 0 and lo + 1e-6 < float(db) < hi - 1e-6 and dmin + 1e-6 < float(db) < dmax - 1e-6:
+                    ctx.violation("stopped-flag-on-a-received-disparity-inside-the-interval",
+                                  f"pixel ({y},{x}) received {db!r} (not a sample, strictly inside [{lo},{hi}]), stayed there, flag {mb}->{ma}",
+                                  case, situation="non-sample", desc=desc)
+                    viol += 1
                 continue
             c0 = cv_costs[y, x, idx]
             if np.isnan(c0):
